@@ -3,12 +3,51 @@
 //! prints canonical answers for the Lean model `mzk-c11`, and checks the property directly
 //! against an affine group law over `num-bigint` (module `big`).
 mod big;
+mod bn;
+mod curves;
 mod jj;
+mod wei;
 
 use mzkh::Ctx;
 
+thread_local! {
+    static REPORTED: std::cell::RefCell<std::collections::HashSet<String>> = Default::default();
+}
+
+/// `oracle_fail`, once per key (defect classes have one stable key; the first witness is kept).
+pub fn fail_once(ctx: &mut Ctx, key: &str, what: &str, detail: serde_json::Value) {
+    let fresh = REPORTED.with(|r| r.borrow_mut().insert(key.to_string()));
+    if fresh {
+        ctx.oracle_fail(key, what, detail);
+    } else {
+        ctx.count(&format!("repeat:{key}"));
+    }
+}
+
 fn main() {
     let mut ctx = Ctx::from_args("C11");
-    jj::run(&mut ctx);
+    if std::env::var("C11_DEBUG").is_ok() {
+        std::panic::set_hook(Box::new(|i| eprintln!("panic: {i}")));
+    }
+    let only = std::env::var("C11_ONLY").unwrap_or_default();
+    let want = |s: &str| only.is_empty() || only.split(',').any(|x| x == s);
+    if want("jj") {
+        jj::run(&mut ctx);
+    }
+    if want("g1") {
+        wei::run::<curves::G1>(&mut ctx);
+    }
+    if want("g2") {
+        wei::run::<curves::G2>(&mut ctx);
+    }
+    if want("bn1") {
+        wei::run::<curves::Bn1>(&mut ctx);
+        bn::run::<curves::Bn1>(&mut ctx);
+    }
+    if want("bn2") {
+        wei::run::<curves::Bn2>(&mut ctx);
+        bn::run::<curves::Bn2>(&mut ctx);
+        bn::run_g2_cofactor(&mut ctx);
+    }
     ctx.finish();
 }
